@@ -37,6 +37,7 @@ pub fn check<I: Inputs>(vt: &'static Vt<I>, ctx: &Ctx) -> DeclReport {
         || vt.borrow2.is_some()
         || vt.into.is_some()
         || vt.clone.is_some()
+        || vt.eq_self.is_some()
         || vt.copy.is_some()
         || vt.display.is_some()
         || vt.hash.is_some()
@@ -85,6 +86,22 @@ pub fn check<I: Inputs>(vt: &'static Vt<I>, ctx: &Ctx) -> DeclReport {
                 Ok(got) if got == exp || exp.is_none() => {}
                 Ok(got) => return Outcome::fail(nontrivial, class, sig("Display", "differs-from-inner"), format!("{exp:?}"), format!("{got:?}")),
                 Err(p) => return Outcome::fail(nontrivial, class, sig("Display", "panic"), format!("{exp:?}"), format!("panic: {p}")),
+            }
+        }
+        // one object on both sides: the answers of the inner value compared with itself (not reflexive for NaN)
+        if let Some(f) = vt.eq_self {
+            let exp = inner.inner_eq(&inner);
+            match no_panic(|| f(raw.clone())) {
+                Ok(Some((eq, ne))) if eq == exp && ne == !exp => {}
+                other => return Outcome::fail(true, class, sig("PartialEq", "self-comparison-differs-from-inner"), format!("(== {exp}, != {})", !exp), format!("{other:?}")),
+            }
+        }
+        if let Some(f) = vt.partial_cmp_self {
+            if let Some(exp) = inner.inner_partial_cmp(&inner) {
+                match no_panic(|| f(raw.clone())) {
+                    Ok(Some(g)) if g == exp => {}
+                    other => return Outcome::fail(true, class, sig("PartialOrd", "self-comparison-differs-from-inner"), format!("{exp:?}"), format!("{other:?}")),
+                }
             }
         }
         if let Some(f) = vt.hash {
